@@ -5,6 +5,7 @@ pub mod aspect;
 pub mod case;
 pub mod gens;
 pub mod refops;
+pub mod selftest;
 pub mod tensor;
 
 use case::Spec;
